@@ -164,13 +164,13 @@ func init() {
 						inc := fl.node(pt)
 						n++
 						incText := ""
-					switch st := inc.(type) {
-					case *ast.IncDecStmt:
-						incText = exprString(p.Fset, st.X) + "++"
-					case *ast.AssignStmt:
-						incText = exprString(p.Fset, st.Lhs[0]) + " += " + exprString(p.Fset, st.Rhs[0])
-					}
-					key := fmt.Sprintf("%s %s is followed by the bound check", f.Key(), incText)
+						switch st := inc.(type) {
+						case *ast.IncDecStmt:
+							incText = exprString(p.Fset, st.X) + "++"
+						case *ast.AssignStmt:
+							incText = exprString(p.Fset, st.Lhs[0]) + " += " + exprString(p.Fset, st.Rhs[0])
+						}
+						key := fmt.Sprintf("%s %s is followed by the bound check", f.Key(), incText)
 						type st struct {
 							b *cfg.Block
 							i int
